@@ -1517,3 +1517,27 @@ Theorem legacy_refuted_seq_regress :
   load_flushed (st_disk st1) = 2 /\
   option_map w_next (st_wal (legacy_open st1 60)) = Some 1.
 Proof. vm_compute. split; reflexivity. Qed.
+
+(* ---------- further non-vacuity instances ---------- *)
+Example ex_entry_ok : entry_ok (mkEntry 7 0 ex_pl).
+Proof. repeat split; try reflexivity. repeat constructor. Qed.
+
+(* a second entry cut one byte behind its header *)
+Example ex_parse_torn :
+  parse (enc_entries [mkEntry 7 0 ex_pl] ++ firstn 23 (enc_entry (mkEntry 8 0 [9; 9]))) = [mkEntry 7 0 ex_pl].
+Proof. vm_compute. reflexivity. Qed.
+
+(* the premises of appended_after_reopen_recoverable hold for: crash inside an
+   append, reopen, append (acknowledged with 2), crash, reopen *)
+Example ex_appended_premises :
+  let h1 := [OOpen 1000; OAppend ex_pl; OCrashAppend [4; 5] 10; OOpen 1000] in
+  let h2 := [OCrash; OOpen 1000] in
+  hist_ok init (h1 ++ OAppend [6] :: h2) = true /\
+  snd (step (fst (run init h1)) (OAppend [6])) = EvAck 2 [6] 0.
+Proof. vm_compute. split; reflexivity. Qed.
+
+(* the premises of flush_disciplined hold after two acknowledged appends *)
+Example ex_flush_premises :
+  let st := fst (run init [OOpen 60; OAppend ex_pl; OAppend ex_pl]) in
+  load_flushed (st_disk st) <= 2 /\ 2 <= top_seq (st_disk st) /\ hist_ok st (flush_ops 2) = true.
+Proof. vm_compute. repeat split; discriminate. Qed.
